@@ -28,6 +28,7 @@ KEYMAP = {
     'routing-forgotten-': ['C08', 'C09'], 'routing-cid-views-': ['C09', 'C08'],
     'routing-': ['C09'], 'isolation-': ['C09'],
     'flow-': ['C05', 'C06'],
+    'token-': ['C14'],
     'panic-in-': ['*'],
 }
 
